@@ -1691,17 +1691,30 @@ func (self *Node) removePair(i int) {
 	if last == nil {
 		return
 	}
-	*last = Pair{}
+	if !self.isLazy() {
+		// keep the key index in step (a stale entry outlives the pair);
+		// i does not count removed pairs, look for the physical slot
+		s := (*linkedPairs)(self.p)
+		for j := 0; j < s.Len(); j++ {
+			if s.At(j) == last {
+				s.Unset(j)
+				break
+			}
+		}
+	} else {
+		*last = Pair{}
+	}
 	// NOTICE: should be consistent with linkedPair.Len()
 	self.l--
 }
 
 func (self *Node) removePairAt(i int) {
-	p := (*linkedPairs)(self.p).At(i)
-	if p == nil {
+	s := (*linkedPairs)(self.p)
+	if s.At(i) == nil {
 		return
 	}
-	*p = Pair{}
+	// keep the key index in step (a stale entry outlives the pair)
+	s.Unset(i)
 	// NOTICE: should be consistent with linkedPair.Len()
 	self.l--
 }
